@@ -1256,6 +1256,9 @@ fn ft_pool() -> Vec<T> {
     let mut x = ft("ft_noar4_lookalike", b"FT\0\0", b"FILE", A::new(false).s(b"FLDA").u32v(1).i32v(1).raw(&[1]).s(b"FLDA"));
     x.ext.as_mut().unwrap().1 = 4;
     v.push(x);
+    // messages without an extended header (no APID/CTID at all): never FLDA whatever the plugin's id filter says
+    v.push(t("ft_no_ext_header", b"ECU1", None, vec![1, 2, 3, 4, 5]));
+    v.push(t("ft_no_ext_header_flda_bytes", b"ECU1", None, A::new(false).s(b"FLDA").u32v(1).i32v(1).raw(&[1, 2, 3, 4]).s(b"FLDA").b.clone()));
     v
 }
 fn ft_cfgs() -> Vec<Value> {
@@ -1265,6 +1268,9 @@ fn ft_cfgs() -> Vec<Value> {
             v.push(json!({"keepFLDA": keep, "allowSave": save}));
             v.push(json!({"keepFLDA": keep, "allowSave": save, "apid":"FT", "ctid":"FILE"}));
         }
+        // id filter on one of the two ids only
+        v.push(json!({"keepFLDA": keep, "allowSave": false, "apid":"FT"}));
+        v.push(json!({"keepFLDA": keep, "allowSave": false, "ctid":"FILE"}));
     }
     v
 }
@@ -1364,7 +1370,7 @@ impl Prop for C19 {
         Meta {
             id: "C19",
             level: "exploration",
-            rule: format!("(1) a pool of {} messages built to hit and to miss each decoding plugin (ids from the repository's FIBEX / Muniic JSON / rewrite.cfg; truncated, odd and cross-plugin shapes) as single messages, ordered pairs, tuples within the stateful plugins' groups, whole-pool streams, every payload prefix and single-byte mutations of the matching messages, pushed through plugins_process_msgs for every ordered subset of {{NonVerbose, SomeIp, CAN, Muniic, Rewrite}} (326 chains; sweeps/pairs/tuples: 7 chains = each plugin alone + all five forward and reversed), plugins built by factory::get_plugin. Oracle: same number and order; index, reception time, ECU, payload bytes, lifecycle, standard header identical; extended header identical unless it was missing; timestamp identical unless changed by Rewrite; a panic is a violation. (2) every sub-stream of a file-transfer scenario x 8 FileTransfer configs, and FileTransfer at every position of the 5-plugin chain: only messages of FLDA shape may be missing, none with keepFLDA. (3) AnonymizePlugin: id populations up to 999 ECUs / APIDs per ECU / CTIDs per APID (3 id shapes x 3 visiting orders): pseudonym maps functional and injective, times untouched, count and order kept; every stream of the lifecycle explorer's full-depth family (plus variants with control responses / non-verbose / header-less messages, and a variant where original and anonymised stream are written with DltMessage::to_write and parsed back): lifecycle table (ECU mapped through the pseudonym map, start, end, nr_msgs) and per-message lifecycle assignment identical on original and anonymised stream. Non-trivial = at least one message changed / more than one id / more than one lifecycle or ECU.", pool().len()),
+            rule: format!("(1) a pool of {} messages built to hit and to miss each decoding plugin (ids from the repository's FIBEX / Muniic JSON / rewrite.cfg; truncated, odd and cross-plugin shapes) as single messages, ordered pairs, tuples within the stateful plugins' groups, whole-pool streams, every payload prefix and single-byte mutations of the matching messages, pushed through plugins_process_msgs for every ordered subset of {{NonVerbose, SomeIp, CAN, Muniic, Rewrite}} (326 chains; sweeps/pairs/tuples: 7 chains = each plugin alone + all five forward and reversed), plugins built by factory::get_plugin. Oracle: same number and order; index, reception time, ECU, payload bytes, lifecycle, standard header identical; extended header identical unless it was missing; timestamp identical unless changed by Rewrite; a panic is a violation. (2) every sub-stream of a file-transfer scenario x 12 FileTransfer configs (no id filter, APID+CTID, APID only, CTID only x keepFLDA x allowSave), and FileTransfer at every position of the 5-plugin chain: only messages of FLDA shape may be missing, none with keepFLDA. (3) AnonymizePlugin: id populations up to 999 ECUs / APIDs per ECU / CTIDs per APID (3 id shapes x 3 visiting orders): pseudonym maps functional and injective, times untouched, count and order kept; every stream of the lifecycle explorer's full-depth family (plus variants with control responses / non-verbose / header-less messages, and a variant where original and anonymised stream are written with DltMessage::to_write and parsed back): lifecycle table (ECU mapped through the pseudonym map, start, end, nr_msgs) and per-message lifecycle assignment identical on original and anonymised stream. Non-trivial = at least one message changed / more than one id / more than one lifecycle or ECU.", pool().len()),
             assumptions: vec![
                 "plugin configurations are the ones the repository ships under /repo/tests (fibex1.xml, non_verbose*.xml, muniic/min.json, rewrite.cfg); no CAN channel description exists there, so CAN frames are rendered without signal decoding".into(),
                 "pseudonym capacity is 999 per counter (3 digits); from the 1000th id on 'E1000' is cut to 'E100' and collides - recorded as coverage.beyond_capacity, not judged".into(),
